@@ -65,6 +65,8 @@ type Scenario[P any] struct {
 	// FreeBound > 0 additionally limits the number of non-default choices that cost no
 	// deviation (order of threads at blocking points, ready select arms); 0 = unlimited.
 	FreeBound int
+	// DefaultOnly: run only the default schedule (for checks whose quantifier is not the schedule).
+	DefaultOnly bool
 	// Body runs as the main thread of the execution; it builds fresh objects,
 	// starts threads with vsched.GoNamed and waits for the ones it cares about.
 	Body func(p P, o *Obs)
@@ -113,7 +115,7 @@ func Explore[P any](c *kit.Ctx, sc Scenario[P], bound int, shard, shards int) St
 	runtime.GOMAXPROCS(1) // one managed thread runs at a time; hand-offs are ~1.6x-4x faster on one P
 	stepLimited := 0
 	st := vsched.Explore(vsched.ExploreOpts{
-		Bound: bound, FreeBound: sc.FreeBound, Deadline: c.Deadline(), Shard: shard, Shards: shards, SplitAt: 3, Run: vsched.Opts{MaxSteps: sc.MaxSteps},
+		Bound: bound, FreeBound: sc.FreeBound, DefaultOnly: sc.DefaultOnly, Deadline: c.Deadline(), Shard: shard, Shards: shards, SplitAt: 3, Run: vsched.Opts{MaxSteps: sc.MaxSteps},
 		Exec: func(prefix []int) *vsched.Sched {
 			w := witness[P]{Scenario: sc.Name, Params: sc.Params, Schedule: prefix}
 			r, x, o := runOne(w, false)
